@@ -95,6 +95,20 @@ func (w *World) dumpFunctions() []byte {
 	return append(b, '\n')
 }
 
+// sigChanged: a reviewed function whose parameter or result types are no longer the reviewed
+// ones. What the tables say about its parameters was said about the old ones, so its
+// parameters are read as what its callers pass (as for a new function).
+func (w *World) sigChanged(key string) bool {
+	if w == nil || !w.base.loaded || !w.base.fns[key] {
+		return false
+	}
+	fi := w.Funcs[key]
+	if fi == nil || fi.Obj == nil {
+		return false
+	}
+	return w.base.sigs[key] != funcSigKey(fi)
+}
+
 // isNewName: key names a declared gleece function that the reviewed tree did not have.
 func (w *World) isNewName(key string) bool {
 	if w == nil || !w.base.loaded {
@@ -371,7 +385,7 @@ func (w *World) buildASTNewIndex() {
 	sort.Strings(keys)
 	for _, k := range keys {
 		fi := w.Funcs[k]
-		if w.isNewName(k) {
+		if w.isNewName(k) || w.sigChanged(k) {
 			info := fi.Pkg.TypesInfo
 			if fi.Decl.Recv != nil {
 				for _, f := range fi.Decl.Recv.List {
@@ -400,7 +414,7 @@ func (w *World) buildASTNewIndex() {
 		}
 		ast.Inspect(fi.Decl.Body, func(n ast.Node) bool {
 			if c, ok := n.(*ast.CallExpr); ok {
-				if name := calleeOfCall(fi.Pkg.TypesInfo, c); name != "" && w.isNewName(name) {
+				if name := calleeOfCall(fi.Pkg.TypesInfo, c); name != "" && (w.isNewName(name) || w.sigChanged(name)) {
 					w.astSites[name] = append(w.astSites[name], astCallSite{fi, c})
 				}
 			}
@@ -466,7 +480,7 @@ func (w *World) argsBoundTo(o types.Object) ([]astCallSite, []ast.Expr, bool) {
 	}
 	var sites []astCallSite
 	var exprs []ast.Expr
-	for _, s := range w.astSites[np.Key] {
+	for _, s := range w.sitesForHost(w.astSites[np.Key]) {
 		if np.Idx < 0 {
 			if se, ok := s.Call.Fun.(*ast.SelectorExpr); ok {
 				sites = append(sites, s)
@@ -480,6 +494,119 @@ func (w *World) argsBoundTo(o types.Object) ([]astCallSite, []ast.Expr, bool) {
 		}
 	}
 	return sites, exprs, len(sites) > 0
+}
+
+// Context of a look-through. A new helper shared by several reviewed functions, or called
+// several times by one, is analysed once per use: while its results are looked through from a
+// call, its parameters stand for the arguments of that call (astCtx); while a construct inside
+// it is judged on behalf of one reviewed function (curHost), they stand for the arguments of
+// the calls made from that function's region.
+type astFrame struct {
+	Site   astCallSite
+	Callee string
+}
+
+func (w *World) astCtxIndex(callee string) int {
+	for i := len(w.astCtx) - 1; i >= 0; i-- {
+		if w.astCtx[i].Callee == callee {
+			return i
+		}
+	}
+	return -1
+}
+
+func argOfSite(s astCallSite, idx int) ast.Expr {
+	if idx < 0 {
+		if se, ok := s.Call.Fun.(*ast.SelectorExpr); ok {
+			return se.X
+		}
+		return nil
+	}
+	if idx < len(s.Call.Args) {
+		return s.Call.Args[idx]
+	}
+	return nil
+}
+
+// withHost runs f while constructs inside new functions are judged on behalf of `host`.
+func (w *World) withHost(host string, f func()) {
+	saved := w.curHost
+	w.curHost = host
+	defer func() { w.curHost = saved }()
+	f()
+}
+
+// sitesForHost: the call sites that lie in the current host's region (all, without a host
+// or when none does).
+func (w *World) sitesForHost(sites []astCallSite) []astCallSite {
+	if w.curHost == "" || len(sites) < 2 {
+		return sites
+	}
+	var out []astCallSite
+	for _, s := range sites {
+		if w.inHostRegion(s.Fi.Key) {
+			out = append(out, s)
+		}
+	}
+	if len(out) == 0 {
+		return sites
+	}
+	return out
+}
+
+func (w *World) inHostRegion(fnKey string) bool {
+	if fnKey == w.curHost {
+		return true
+	}
+	if !w.isNewName(fnKey) {
+		return false
+	}
+	for _, h := range hostParts(w.hostKey(fnKey)) {
+		if h == w.curHost {
+			return true
+		}
+	}
+	return false
+}
+
+// siteWeight: how many call sites of the reviewed tree a call stands for. A call written in
+// a new helper stands for one per call of that helper (the calls it was extracted from).
+func (w *World) siteWeight(c ssa.CallInstruction) int { return w.fnWeight(c.Parent(), 0) }
+
+func (w *World) fnWeight(fn *ssa.Function, depth int) int {
+	if depth > 5 || !w.isNewFn(fn) {
+		return 1
+	}
+	n := 0
+	for _, s := range w.callSitesOfNew(fn) {
+		n += w.fnWeight(s.Parent(), depth+1)
+	}
+	if n == 0 {
+		return 1
+	}
+	return n
+}
+
+// boundExprs: the expressions e stands for - itself, or, when e is a parameter of a new
+// function, the arguments its call sites pass (transitively).
+type boundExpr struct {
+	Fi   *FuncInfo
+	Expr ast.Expr
+}
+
+func (w *World) boundExprs(fi *FuncInfo, e ast.Expr, depth int) []boundExpr {
+	if id, ok := ast.Unparen(e).(*ast.Ident); ok && depth < 6 {
+		if o := fi.Pkg.TypesInfo.Uses[id]; o != nil {
+			if sites, exprs, ok := w.argsBoundTo(o); ok && len(w.defsOf(fi).defs[o]) == 0 {
+				var out []boundExpr
+				for i, s := range sites {
+					out = append(out, w.boundExprs(s.Fi, exprs[i], depth+1)...)
+				}
+				return out
+			}
+		}
+	}
+	return []boundExpr{{fi, e}}
 }
 
 // resultExprs: the expressions a function returns as result idx (all results if idx < 0);
